@@ -55,6 +55,17 @@ class D2:
 
 
 DATA = {"D1": D1, "D2": D2}
+
+from typing import NotRequired, TypeAliasType, TypedDict  # noqa: E402
+
+
+class TD1(TypedDict):
+    a: int
+    b: NotRequired[str]
+    c: NotRequired[Optional[List[int]]]
+
+
+ALIAS = TypeAliasType("ALIAS", List[Union[int, None]])
 KNOWN_ENUMS = {"Color": ["red", "green", "blue"], "Sz": ["s", "m", "true"], "W": ["[2, 1]", "a"]}
 
 
@@ -149,6 +160,12 @@ def encode(v, seen=False):
         return ["dict", [[["str", a], encode(b)] for a, b in v.__dict__.items()]]
     if isinstance(v, BaseException):
         return ["opaque", "exc", ""]
+    if isinstance(v, type) or type(v).__name__ == "function":
+        return ["opaque", "type" if isinstance(v, type) else "function", "%s.%s" % (v.__module__, v.__qualname__)]
+    if type(v).__name__ == "OrderedDict":
+        return ["opaque", "OrderedDict", json.dumps(["dict", [[encode(a, seen), encode(b, seen)] for a, b in v.items()]])]
+    if type(v).__name__ == "mappingproxy":
+        return ["opaque", "mappingproxy", json.dumps(["dict", [[encode(a, seen), encode(b, seen)] for a, b in v.items()]])]
     if type(v).__name__ == "Decimal" and type(v).__module__ in ("decimal", "_decimal", "_pydecimal"):
         # Decimal('1.50') == Decimal('1.5'): the value, not the exponent of its representation
         return ["opaque", "Decimal", "nan" if v.is_nan() else format(v.normalize(), "f") if v.is_finite() else str(v)]
@@ -226,6 +243,38 @@ def build_type(t, enums, scratch):
         import decimal
 
         return decimal.Decimal
+    if k == "annot":
+        from typing import Annotated
+
+        return Annotated[int, "unit"]
+    if k == "annotv":
+        from typing import Annotated
+
+        import pydantic
+
+        return Annotated[int, pydantic.Field(gt=0)]
+    if k == "type":
+        from typing import Type
+
+        import c10_classes
+
+        return Type[getattr(c10_classes, t[1])]
+    if k == "odict":
+        from typing import OrderedDict
+
+        return OrderedDict[str, build_type(t[1], enums, scratch)]
+    if k == "mproxy":
+        from types import MappingProxyType
+
+        return MappingProxyType[str, build_type(t[1], enums, scratch)]
+    if k == "tdict":
+        return TD1
+    if k == "alias":
+        return ALIAS
+    if k == "callable":
+        from typing import Callable
+
+        return Callable[[int], int]
     if k == "uuid":
         import uuid
 
@@ -310,7 +359,7 @@ def dump_leg(p, cfg, keys):
     res = {"reparsed": ["crashed", "not run"], "text1": None, "text2": None}
     try:
         with contextlib.redirect_stderr(io.StringIO()):
-            res["text1"] = p.dump(cfg.clone())
+            res["text1"] = p.dump(cfg)          # the caller hands over a clone and looks at it afterwards
     except BaseException as ex:  # noqa: B902
         res["reparsed"] = ["crashed", "dump: %s: %s" % (type(ex).__name__, str(ex)[:200])]
         return res
@@ -351,6 +400,10 @@ def build_parser(case, enums, scratch, with_cfg):
             seen["defaults"][-1] = ["none"]
         if d.get("enable_path"):
             kw["enable_path"] = True
+        if d.get("nargs"):
+            kw["nargs"] = d["nargs"]
+        if d.get("required"):
+            kw["required"] = True
         act = p.add_argument("--" + d["key"], type=ty, **kw)
         if "default" in kw and d["default"][0] != "lazy":
             # the default as the parser keeps it (ActionTypeHint.normalize_default: an Enum member becomes its name)
@@ -375,6 +428,73 @@ def run_case(case, scratch):
                 os.remove(name)
 
 
+# ---- calls that the library REJECTS, each at a different stage: they must leave nothing behind -------------------------
+def fault_call(name, p, case, scratch):
+    """one rejected call in the same process; `p` is the parser under test (used by the same_* faults)"""
+    from jsonargparse import ActionConfigFile
+
+    q = ArgumentParser(exit_on_error=False)
+    if name == "bad_value":                         # a value its type refuses (argv)
+        q.add_argument("--n", type=int)
+        return q.parse_args(["--n=x"])
+    if name == "unknown_key":                       # a key nobody declared (object)
+        q.add_argument("--n", type=int)
+        return q.parse_object({"zz": 1})
+    if name == "cfg_missing":                       # a config file that does not exist
+        q.add_argument("--cfg", action=ActionConfigFile)
+        q.add_argument("--n", type=int)
+        return q.parse_args(["--n=1", "--cfg=missing_file.yaml"])
+    if name == "required_missing":                  # refused by check_required, after all values were accepted
+        q.add_argument("--r", type=int, required=True)
+        q.add_argument("--d", type=Dict[str, D1], default={})
+        return q.parse_args(['--d={"a": {"a": 2}}'])
+    if name == "sub_default":                       # refused while a selected class's own defaults are applied
+        import c10_classes
+
+        q.add_argument("--w", type=Optional[c10_classes.Worker], default=None)
+        return q.parse_args(["--w=BrokenWorker"])
+    if name == "sub_default_object":
+        import c10_classes
+
+        q.add_argument("--w", type=c10_classes.Worker)
+        return q.parse_object({"w": {"class_path": "c10_classes.BrokenWorker"}})
+    if name == "sub_default_string":
+        import c10_classes
+
+        q.add_argument("--w", type=Optional[c10_classes.Worker], default=None)
+        return q.parse_string("w: {class_path: c10_classes.BrokenWorker}\n")
+    if name == "sub_default_in_list":
+        import c10_classes
+
+        q.add_argument("--ws", type=List[c10_classes.Worker], default=[])
+        return q.parse_args(['--ws=[{"class_path": "c10_classes.Worker"}, {"class_path": "c10_classes.BrokenWorker"}]'])
+    if name == "dataclass_field":                   # refused inside the nested parser of a dataclass item
+        q.add_argument("--l", type=List[D1], default=[])
+        return q.parse_object({"l": [{"a": 1}, {"a": "x"}]})
+    if name == "string_broken":                     # text that does not load
+        q.add_argument("--n", type=int)
+        return q.parse_string("n: [1, 2\n")
+    if name == "same_unknown_key":                  # the parser under test itself refuses an object
+        return p.parse_object({"no_such_option_zz": 1})
+    if name == "same_bad_string":
+        return p.parse_string("no_such_option_zz: {a: [1\n")
+    if name == "same_validate":                     # validate of a foreign namespace
+        return p.validate(Namespace(no_such_option_zz=1))
+    raise ValueError("unknown fault %r" % (name,))
+
+
+def run_faults(names, p, case, scratch):
+    for name in names:
+        try:
+            with contextlib.redirect_stderr(io.StringIO()), contextlib.redirect_stdout(io.StringIO()):
+                fault_call(name, p, case, scratch)
+        except ValueError as ex:
+            if str(ex).startswith("unknown fault"):
+                raise
+        except BaseException:  # noqa: B902
+            pass
+
+
 def run_case_(case, scratch, enums):
     if case.get("pre") is not None:
         # an earlier, FAILED call in the same process (another parser of the same shape): it must leave nothing behind
@@ -384,7 +504,7 @@ def run_case_(case, scratch, enums):
         except BaseException:  # noqa: B902
             pass
     p, keys, seeds, seen = build_parser(case, enums, scratch, case.get("channel") == "cfgfile")
-    if case["kind"] == "ns":
+    if case["kind"] in ("ns", "nl"):
         obj = copy.deepcopy(decode(case["obj"], enums))      # the very object handed over: its sets' iteration order is what counts
         seen["obj"] = encode(obj, True)
         strings_of(case["obj"], seeds)
@@ -399,21 +519,64 @@ def run_case_(case, scratch, enums):
         else:
             first, cfg = attempt(lambda: p.parse_string(inp), keys)
     obs = {"first": first, "valid": True, "why": "", "again": []}
+    if cfg is not None and case.get("mid"):
+        # between the parse and the checks the same process has other calls REJECTED (a parse result is a fixed point whatever
+        # else the library was asked to do in between)
+        run_faults(case["mid"], p, case, scratch)
     if cfg is not None:
+        # every leg gets its own clone and must leave it as it was ("re-parsing or validating changes nothing")
+        def untouched(c):
+            try:
+                return snapshot(c, keys) == first[1]
+            except BaseException:  # noqa: B902
+                return False
+
+        c0 = cfg.clone()
         try:
             with contextlib.redirect_stderr(io.StringIO()):
-                p.validate(cfg.clone())
+                p.validate(c0)
         except BaseException as ex:  # noqa: B902
             obs["valid"] = False
             obs["why"] = "%s: %s" % (type(ex).__name__, str(ex)[:200])
-        obs["again"].append(attempt(lambda: p.parse_object(cfg.clone()), keys)[0])
+        if obs["valid"] and not untouched(c0):
+            obs["valid"] = False
+            obs["why"] = "validate(cfg) changed cfg in place"
+        c1 = cfg.clone()
+        a1 = attempt(lambda: p.parse_object(c1), keys)[0]
+        obs["again"].append(a1 if untouched(c1) else ["crashed", "parse_object(cfg) changed cfg in place"])
         obs["again"].append(attempt(lambda: p.parse_object(cfg.clone().as_dict()), keys)[0])
         if case["kind"] == "x":
-            obs["dump"] = dump_leg(p, cfg, keys)
-    if case["kind"] == "ns":
+            c2 = cfg.clone()
+            obs["dump"] = dump_leg(p, c2, keys)
+            if not untouched(c2):
+                obs["dump"]["reparsed"] = ["crashed", "dump(cfg) changed cfg in place"]
+    if case["kind"] in ("ns", "nl"):
         obs["oracle"] = make_oracle(seeds)
         obs["seen"] = seen
     return obs
+
+
+def run_forked(case, scratch):
+    r, w = os.pipe()
+    pid = os.fork()
+    if pid == 0:
+        code = 0
+        try:
+            os.close(r)
+            data = json.dumps(run_case(case, scratch)).encode()
+            with os.fdopen(w, "wb") as f:
+                f.write(data)
+        except BaseException:  # noqa: B902
+            code = 1
+        finally:
+            os._exit(code)
+    os.close(w)
+    with os.fdopen(r, "rb") as f:
+        data = f.read()
+    os.waitpid(pid, 0)
+    if not data:
+        raise RuntimeError("forked case produced no observation")
+    return json.loads(data)
 
 
 def main():
@@ -429,7 +592,9 @@ def main():
                 f.write("x: 1\n")
         for case in payload["cases"]:
             try:
-                out.append(run_case(case, scratch))
+                # a case with a call history runs in a forked child: whatever a rejected call leaves behind must show in THIS
+                # case and must not mask (or fake) anything in the cases that follow in the same runner process
+                out.append(run_forked(case, scratch) if (case.get("mid") or case.get("pre") is not None) else run_case(case, scratch))
             except BaseException as ex:  # noqa: B902
                 out.append({"first": ["crashed", "harness %s: %s" % (type(ex).__name__, str(ex)[:300])], "valid": True,
                             "why": "", "again": [], "oracle": {"jload": [], "pval_t": [], "pval_f": [], "ikey": []},
